@@ -45,11 +45,16 @@ type c06State struct {
 }
 
 func c06Scenario(name string, steps []c06Step, sync bool, hsteps int) *explore.Scenario {
+	return c06ScenarioH(name, steps, sync, func() *scriptHandler { return &scriptHandler{Steps: hsteps} })
+}
+
+func c06ScenarioH(name string, steps []c06Step, sync bool, mkh func() *scriptHandler) *explore.Scenario {
 	return &explore.Scenario{
-		Name:  name,
-		Cache: true,
+		Name:     name,
+		Cache:    true,
+		MaxSteps: 400000,
 		Body: func() any {
-			st := &c06State{serveRun: newServeRun(sync, &scriptHandler{Steps: hsteps}), steps: steps}
+			st := &c06State{serveRun: newServeRun(sync, mkh()), steps: steps}
 			st.startServer()
 			vsched.Go("client", func() {
 				if !st.negotiate(65536) {
@@ -288,7 +293,18 @@ func c06Scenarios() []*explore.Scenario {
 	for _, p := range c06Plans(2) {
 		out = append(out, c06Scenario(fmt.Sprintf("k2[%s]sync", planName(p)), p, true, 0))
 	}
+	out = append(out, c06Pipeline(300))
 	return out
+}
+
+// c06Pipeline: n requests with distinct tags, all outstanding at once: no
+// handler completes before every one of them has been dispatched.
+func c06Pipeline(n int) *explore.Scenario {
+	var steps []c06Step
+	for i := 0; i < n; i++ {
+		steps = append(steps, c06Step{Tag: p9p.Tag(i + 1), Await: -1, Kind: i})
+	}
+	return c06ScenarioH(fmt.Sprintf("pipeline-depth-%d", n), steps, false, func() *scriptHandler { return &scriptHandler{Mode: GateAll, Gate: n} })
 }
 
 // Plan is one exploration job: a scenario, its cost model and bound.
@@ -387,9 +403,15 @@ func c06(c *core.Ctx) {
 	c.Budget(90*time.Second, 12*time.Minute)
 	c.SetRule("scenarios = every assignment of tags {1,2} to 2 and 3 pipelined requests (repeat of an outstanding tag, and reuse after the reply was read), each explored over all interleavings of the real ServeConn goroutines, handler completions and the scripted client up to the preemption bound; outcome = reply order + duplicate-tag attributions")
 	c.Assume("scheduling points at channel, select, mutex, once, sync.Map, context-cancel and conn operations; sequentially consistent interleavings only", "client is scripted with an independent codec; handler results are a function of the request identity")
+	scs := c06Scenarios()
+	deep := scs[len(scs)-1]
+	scs = scs[:len(scs)-1]
+	var plans []Plan
 	if c.Quick() {
-		runPlans(c, both(c06Scenarios(), 1, 3, 0))
+		plans = both(scs, 1, 3, 0)
 	} else {
-		runPlans(c, both(c06Scenarios(), 3, 6, 0))
+		plans = both(scs, 3, 6, 0)
 	}
+	plans = append(plans, Plan{Sc: deep, Max: -1}) // full pipelining depth: one (default) schedule
+	runPlans(c, plans)
 }
